@@ -10,7 +10,14 @@
    with letters, `_` and one digit, which can never be a keyword or a library function.  The entry
    function is always printed as `main`.  Record r is `R<r>` / `R<letters>`, its fields
    `f<pos>` / `f<letters>_<pos>`.  Array dimension names (`t[D3] : int`) are numbered in print
-   order; they are binders of the concrete syntax only. *)
+   order; they are binders of the concrete syntax only.
+
+   Pipes: Src.Syntax has no `|>`; the concrete language defines  a |> f(b, c)  as  f(a, b, c)  and
+   (a, b) : (T1, T2) |> f(c)  as  f(a, b, c)  (the tuple is unpacked into the leading arguments;
+   evaluation order c, b, a, then f — confirmed on the real compiler, same as the call).  With
+   `~pipe:pct` the printer spells that percentage of the calls whose callee is a name with a known
+   signature (named function or function-typed parameter) in the piped form, so that the real
+   compiler's pipe/tuple code is exercised while the evaluator sees the plain call. *)
 open Evalmodel
 open Conv
 
@@ -32,7 +39,13 @@ let binop_str = function
   | And -> "&&" | Or -> "||" | BAnd -> "&&&" | BOr -> "|||" | BXor -> "^^^"
   | Shl -> "<<<" | Shr -> ">>>"
 
+type sigt = { ptys : ty list; pvars : bool list }
+
 type pr = {
+  pipe : int;                    (* percent of eligible calls printed with |> *)
+  mutable ncall : int;           (* eligible calls seen so far *)
+  mutable npiped : int;
+  mutable tenv : (int * sigt option) list;   (* names in scope whose call signature is known *)
   b : Buffer.t;
   mutable line : int;            (* current line, 1-based *)
   mutable dims : int;            (* next array dimension name *)
@@ -93,11 +106,19 @@ let rec expr p ind e =
   | EIf (c, a) -> str p "if ("; expr p ind c; str p ")"; nl p; braced p ind a
   | EAssign (l, r) -> sub p ind l; str p " = "; sub p ind r
   | ECall (f, args) ->
-    (match f with
-     | EVar _ -> expr p ind f
-     | ELambda fd -> lambda p ind fd
-     | _ -> str p "("; expr p ind f; str p ")");
-    str p "("; commas p ind args; str p ")"
+    let callee () =
+      match f with
+      | EVar _ -> expr p ind f
+      | ELambda fd -> lambda p ind fd
+      | _ -> str p "("; expr p ind f; str p ")" in
+    (match pipe_split p f args with
+     | Some (piped, tys, rest) ->
+       p.npiped <- p.npiped + 1;
+       (match piped with
+        | [a] -> sub p ind a
+        | _ -> str p "("; commas p ind piped; str p ") : ("; str p (String.concat ", " (List.map (ty_str p) tys)); str p ")");
+       str p " |> "; callee (); str p "("; commas p ind rest; str p ")"
+     | None -> callee (); str p "("; commas p ind args; str p ")")
   | EBlock items -> block p ind items
   | EWhile (c, body) -> str p "while ("; expr p ind c; str p ")"; nl p; braced p ind body
   | EDoWhile (body, c) -> str p "do"; nl p; braced p ind body; nl p; indent p ind; str p "while ("; expr p ind c; str p ")"
@@ -112,7 +133,32 @@ let rec expr p ind e =
   | EField (a, r, pos) -> sub p ind a; str p "."; str p (field_name (int_of_n r) (int_of_nat pos))
   | EPrint a -> str p "print("; expr p ind a; str p ")"
 
-and sub p ind e = if atomic e then expr p ind e else (str p "("; expr p ind e; str p ")")
+and sub p ind e =
+  let at = atomic e && (match e with ECall _ -> p.pipe = 0 | _ -> true) in
+  if at then expr p ind e else (str p "("; expr p ind e; str p ")")
+
+(* decide whether this call is printed as a pipe; Some (piped arguments, their types, the rest) *)
+and pipe_split p f args =
+  if p.pipe <= 0 || args = [] then None
+  else match f with
+    | EVar x ->
+      (match List.assoc_opt (int_of_n x) p.tenv with
+       | Some (Some sg) when List.length sg.ptys = List.length args ->
+         p.ncall <- p.ncall + 1;
+         let h = (p.ncall * 2654435761) lsr 7 in
+         if h mod 100 >= p.pipe then None
+         else begin
+           let n = List.length args in
+           let k = 1 + ((p.ncall * 40503) lsr 3) mod n in
+           let rec take k l = if k <= 0 then [] else match l with [] -> [] | x :: t -> x :: take (k - 1) t in
+           let rec drop k l = if k <= 0 then l else match l with [] -> [] | _ :: t -> drop (k - 1) t in
+           let piped = take k args in
+           let okarg = function ERecNil _ -> false | _ -> true in
+           if List.exists (fun v -> v) (take k sg.pvars) || not (List.for_all okarg piped) then None
+           else Some (piped, take k sg.ptys, drop k args)
+         end
+       | _ -> None)
+    | _ -> None
 
 and commas p ind es =
   List.iteri (fun i a -> if i > 0 then str p ", "; expr p ind a) es
@@ -126,13 +172,20 @@ and braced p ind e =
 (* prints `{ NL items NL ind }` ; the opening brace goes where the cursor is *)
 and block p ind items =
   str p "{"; nl p;
+  let saved = p.tenv in
   let n = List.length items in
   List.iteri (fun i it ->
       indent p (ind + 1);
+      (match it with IFunc fd -> p.tenv <- (int_of_n (fd_name fd), Some (sig_of fd)) :: p.tenv | _ -> ());
       item p (ind + 1) it;
+      (match it with ILet (x, _) | IVar (x, _) -> p.tenv <- (int_of_n x, None) :: p.tenv | _ -> ());
       if i < n - 1 then str p ";";
       nl p) items;
+  p.tenv <- saved;
   indent p ind; str p "}"
+
+and sig_of (FDef (_, params, _, _, _, _)) =
+  { ptys = List.map snd params; pvars = List.map (fun ((_, v), _) -> v) params }
 
 and item p ind it =
   match it with
@@ -148,22 +201,32 @@ and fdef p ind name fd =
   let ps = List.map (fun ((x, isvar), t) -> (if isvar then "var " else "") ^ param_str p (vname p x) t) params in
   let ps = String.concat ", " ps in
   str p ("func " ^ (match name with Some x -> vname p x | None -> "") ^ "(" ^ ps ^ ") -> " ^ ty_str p ret);
+  let saved = p.tenv in
+  List.iter (fun ((x, _), t) ->
+      p.tenv <- (int_of_n x, (match t with TFun (a, _) -> Some { ptys = a; pvars = List.map (fun _ -> false) a } | _ -> None)) :: p.tenv) params;
+  let restore () = p.tenv <- saved in
   nl p; indent p ind; block p ind body;
   List.iter (fun (ex, h) ->
       nl p; indent p ind; str p ("catch (" ^ exn_name ex ^ ")"); nl p; indent p ind; block p ind h) catches;
   (match call with
    | Some h -> nl p; indent p ind; str p "catch"; nl p; indent p ind; block p ind h
-   | None -> ())
+   | None -> ());
+  restore ()
 
 let record_decl p (r, tys) =
   str p ("record " ^ rec_name (int_of_n r) ^ " { ");
   List.iteri (fun i t -> str p (param_str p (field_name (int_of_n r) i) t); str p "; ") tys;
   str p "}"; nl p
 
-let print_program_lines (prog : program) : string * (int * string) list =
-  let p = { b = Buffer.create 4096; line = 1; dims = 0; main = int_of_n prog.p_main; items = [] } in
+let print_program_full ?(pipe = 0) (prog : program) : string * (int * string) list * int =
+  let p = { pipe; ncall = 0; npiped = 0; tenv = []; b = Buffer.create 4096; line = 1; dims = 0;
+            main = int_of_n prog.p_main; items = [] } in
+  p.tenv <- List.map (fun fd -> (int_of_n (fd_name fd), Some (sig_of fd))) prog.p_funcs;
   List.iter (record_decl p) prog.p_recs;
   List.iter (fun fd -> fdef p 0 (Some (fd_name fd)) fd; nl p) prog.p_funcs;
-  (Buffer.contents p.b, List.rev p.items)
+  (Buffer.contents p.b, List.rev p.items, p.npiped)
 
-let print_program (prog : program) : string = fst (print_program_lines prog)
+let print_program_lines (prog : program) : string * (int * string) list =
+  let s, l, _ = print_program_full prog in (s, l)
+
+let print_program ?(pipe = 0) (prog : program) : string = let s, _, _ = print_program_full ~pipe prog in s
